@@ -77,15 +77,19 @@ def decide(prop, tier, seed=0, use_cache=True, out=sys.stdout):
     pre = {}
     with ThreadPoolExecutor(max_workers=int(os.environ.get("VERIF_VERUS_JOBS", "4"))) as pool:
         futs = {}
-        for unit in pp.get("verus", []):
+        # `verus_support`: units proved for ANOTHER property whose contracts this property's argument composes (e.g. the text parser
+        # for every function that accepts JSON text): they are run as well and EVERY failure in them counts, whatever its tags
+        support = [u for u in pp.get("verus_support", []) if u not in pp.get("verus", [])]
+        for unit in pp.get("verus", []) + support:
             futs[(unit, False)] = pool.submit(verus_run.run_unit, unit, use_cache=use_cache, log_air=True)
             futs[(unit, True)] = pool.submit(verus_run.run_unit, unit, canary=True, use_cache=use_cache)
         for k, f in futs.items():
             pre[k] = f.result()
-    for unit in pp.get("verus", []):
+    for unit in pp.get("verus", []) + support:
         r = pre[(unit, False)]
-        mine = [f for f in r["functions"] if prop in f["tags"]]
-        ev = {"unit": unit, "status": r["status"], "verus_queries_verified": r.get("verified"), "verus_queries_failed": r.get("errors"),
+        is_support = unit in support
+        mine = [f for f in r["functions"] if prop in f["tags"] or is_support]
+        ev = {"unit": unit, "role": "support (proved for another property, composed here; every failure counts)" if is_support else "own", "status": r["status"], "verus_queries_verified": r.get("verified"), "verus_queries_failed": r.get("errors"),
               "air_asserts": r.get("obligations"), "time_ms": r.get("time_ms"), "cached": r.get("cached", False),
               "functions_under_contract": ["%s::%s (src/%s:%s sha256 %s rules[%s])" % (unit, f["fn"], f["file"], f["line"], f["sha256"][:12], f["rules"]) for f in mine],
               "rewrite_counts": r.get("rewrite_counts"), "cmd": r.get("cmd"), "extract_warnings": r.get("extract_warnings", [])}
@@ -98,7 +102,7 @@ def decide(prop, tier, seed=0, use_cache=True, out=sys.stdout):
         else:
             n_air = r.get("obligations") or r.get("verified") or 0
             any_tag_kinds = pp.get("kinds_any_tag", [])
-            fails_here = [f for f in r["failures"] if (prop in f.get("tags", [])) or not f.get("tags") or f.get("kind") in any_tag_kinds]
+            fails_here = [f for f in r["failures"] if is_support or (prop in f.get("tags", [])) or not f.get("tags") or f.get("kind") in any_tag_kinds]
             obligations += n_air
             discharged += max(0, n_air - len(fails_here))
             for f in fails_here:
